@@ -189,6 +189,7 @@ impl Sim {
                 belief,
                 max_spread,
                 to: None,
+                from: None,
             },
         };
         let ka = match self.model.asset_key(&offer.asset).and_then(|k| p.index_of_key(&k)) {
